@@ -447,7 +447,7 @@ def photons_agree(impl_ph, model_ph, d, rotated=False):
 
 
 def run(ctx):
-    n = 700 if ctx.tier == "quick" else 9000
+    n = 540 if ctx.tier == "quick" else 9000
     ctx.trusted += [
         "hand-written model coq/C20/Optical.v (+ C15/Samplers.v, Base/Vec3.v) tied by replay-RNG differential (props/C20/run.py, harness/optical.cc)",
         "float instance of Num (Base/NumF.v, Base/FloatFun.v): own exp/log/sin/cos/expm1, sin(pi w) for sincospi; compared with libm under rtol 1e-9",
@@ -470,7 +470,7 @@ def run(ctx):
     exe = ctx.compile_harness([os.path.join(HERE, "harness", "optical.cc")], "optical",
                               libs=["celeritas", "orange", "geocel", "corecel"])
     cases = build_cases(ctx, n)
-    nb, nph = (60, 150) if ctx.tier == "quick" else (600, 400)
+    nb, nph = (60, 120) if ctx.tier == "quick" else (600, 400)
     bulk = bulk_cases(ctx, nb, nph)
     inp = "consts\n" + "".join(case_line(c) + "\n" for c in cases + bulk)
     rc, out = ctx.run_harness(exe, input=inp, timeout=1200)
